@@ -1,6 +1,7 @@
 package props
 
 import (
+	"errors"
 	"bytes"
 	"fmt"
 	"math/rand"
@@ -467,6 +468,14 @@ func TestC01(t *testing.T) {
 			if h.ClientErr != nil && strings.HasPrefix(h.ClientErr.Error(), "prepare:") {
 				r.Count("prepare_errors", 1)
 				r.Case("prepare-error|"+label, false)
+				return
+			}
+			var cve *tls.CertificateVerificationError
+			if returning && errors.As(h.ClientErr, &cve) {
+				// the cached session's certificate does not cover the name an edit put in force:
+				// the client refuses before sending anything (C14's subject, not a C01 failure)
+				r.Count("returning_client_refused_stale_session", 1)
+				r.Case("refused-stale-session|"+label, false)
 				return
 			}
 			r.Violation(sig("no_hello_on_wire"), fmt.Sprintf("%s: no ClientHello on the wire: %s", tg.Name, h.ErrString()), rep)
